@@ -141,7 +141,8 @@ namespace ST
         string_stream &operator<<(int num)
         {
             ST::uint_formatter<unsigned int> formatter;
-            formatter.format(std::abs(num), 10, false);
+            // Negate in the unsigned type: std::abs() of the most negative value is undefined
+            formatter.format((num < 0) ? 0 - static_cast<unsigned int>(num) : static_cast<unsigned int>(num), 10, false);
             if (num < 0)
                 append_char('-');
             return append(formatter.text(), formatter.size());
@@ -157,7 +158,8 @@ namespace ST
         string_stream &operator<<(long num)
         {
             ST::uint_formatter<unsigned long> formatter;
-            formatter.format(std::abs(num), 10, false);
+            // Negate in the unsigned type: std::abs() of the most negative value is undefined
+            formatter.format((num < 0) ? 0 - static_cast<unsigned long>(num) : static_cast<unsigned long>(num), 10, false);
             if (num < 0)
                 append_char('-');
             return append(formatter.text(), formatter.size());
@@ -173,7 +175,8 @@ namespace ST
         string_stream &operator<<(long long num)
         {
             ST::uint_formatter<unsigned long long> formatter;
-            formatter.format(std::abs(num), 10, false);
+            // Negate in the unsigned type: std::abs() of the most negative value is undefined
+            formatter.format((num < 0) ? 0 - static_cast<unsigned long long>(num) : static_cast<unsigned long long>(num), 10, false);
             if (num < 0)
                 append_char('-');
             return append(formatter.text(), formatter.size());
